@@ -25,6 +25,16 @@ theorem int_literal_denotes32 (env : DecEnv) (v : BitVec 32) : denote env .i32 v
   simp only [denote, literal, BitVec.ofNat_toNat, BitVec.setWidth_eq]
   split <;> simp [CExpr.eval, CVal.unop, CTy.promote, CVal.ty, CVal.fromNat]
 
+/-- Every i32 literal carries the `U` suffix, whatever its value (regenerated: the suffix and the fact that the i32 case of
+`wasmCWriteLiteral` appends it on every path).  So the literal is an `unsigned int` expression in EVERY context that consumes it:
+assigned to a U32 (function bodies, global initialisers, element offsets) or used as an operand — the index of
+`LOAD_DATA(mem, <literal>, seg, len)` for an active data segment, where a negative (signed) index would address memory below the
+linear memory. -/
+theorem i32_literal_always_unsigned : Gen.i32LitSuffixAlways = true ∧ Gen.i32LitSuffix = "U" := ⟨rfl, rfl⟩
+
+theorem i32_literal_text_unsigned (bits : Nat) :
+    literalText .i32 bits = some (decText (BitVec.ofNat 32 bits).toInt ++ "U") := rfl
+
 theorem int_literal_denotes64 (env : DecEnv) (v : BitVec 64) : denote env .i64 v.toNat = .val (.u64 v) := by
   simp only [denote, literal, BitVec.ofNat_toNat, BitVec.setWidth_eq]
   split <;> simp [CExpr.eval, CVal.unop, CTy.promote, CVal.ty, CVal.fromNat]
